@@ -37,6 +37,8 @@ type vgen struct {
 	noUsers   bool
 	noFloats  bool
 	validUtf8 bool
+	fmtCompat bool // only values the standard fmt package prints the same way (C04)
+	noDump    bool
 }
 
 var cleanStrings = []string{"", "a", "hello", "x y", "é", "☃", "日本", "0", "-1", "a\nb", "\n", "tab\there", "q\"uote", "back`tick", "%d"}
@@ -103,8 +105,14 @@ func (g *vgen) leaf() *Val {
 		}
 		return v
 	case 12:
+		if g.fmtCompat {
+			return &Val{K: "s", GoT: "string", S: g.str()}
+		}
 		return &Val{K: "rs", S: g.redactable()}
 	case 13:
+		if g.fmtCompat {
+			return &Val{K: "b", GoT: "bool", B: true}
+		}
 		return &Val{K: "rb", S: g.redactable()}
 	case 14:
 		return &Val{K: "ptr", GoT: "*int", Nil: r.coin(1, 2), Elems: []*Val{{K: "i", GoT: "int", I: 5}}}
@@ -184,8 +192,14 @@ func (g *vgen) val(depth int) *Val {
 		return &Val{K: "ptr", GoT: "*St2", Nil: r.coin(1, 4),
 			Elems: []*Val{{K: "st", GoT: "St2", Elems: []*Val{g.val(depth - 1), g.val(depth - 1)}}}}
 	case 10, 11:
+		if g.fmtCompat {
+			return g.val(depth - 1)
+		}
 		return &Val{K: "safe", Elems: []*Val{g.val(depth - 1)}}
 	case 12, 13:
+		if g.fmtCompat {
+			return g.val(depth - 1)
+		}
 		return &Val{K: "unsafe", Elems: []*Val{g.val(depth - 1)}}
 	case 14, 15, 16:
 		if g.noUsers {
@@ -202,6 +216,15 @@ func (g *vgen) user(depth int, kinds []int) *Val {
 	uk := r.intn(len(userKinds))
 	if kinds != nil {
 		uk = kinds[r.intn(len(kinds))]
+	}
+	if g.fmtCompat {
+		for userKinds[uk].ifaces[0] || userKinds[uk].ifaces[1] {
+			if kinds != nil {
+				uk = kinds[r.intn(len(kinds))]
+			} else {
+				uk = r.intn(len(userKinds))
+			}
+		}
 	}
 	v := &Val{K: "usr", UK: uk, ID: newID()}
 	switch r.intn(8) {
@@ -254,6 +277,25 @@ var someBytes = []int64{'a', '\n', ' ', 0xe2, 0x80, 0xb9, 0xba, '?'}
 
 func (g *vgen) action(depth int) *Act {
 	r := g.rng
+	if g.fmtCompat {
+		// what a Formatter can do with a plain fmt.State
+		switch r.intn(6) {
+		case 0, 1:
+			return &Act{K: "write", S: g.str()}
+		case 2:
+			return &Act{K: "wstr", S: g.str()}
+		case 3:
+			return &Act{K: "dump"}
+		case 4:
+			if r.coin(1, 3) {
+				return &Act{K: "panic", Args: []*Val{g.panicPayload(depth)}}
+			}
+		}
+		return &Act{K: "write", S: g.str()}
+	}
+	if r.coin(1, 25) {
+		return &Act{K: "wstr", S: g.str()}
+	}
 	switch r.intn(20) {
 	case 0:
 		return &Act{K: "write", S: g.str()}
@@ -299,6 +341,9 @@ func (g *vgen) action(depth int) *Act {
 		}
 		return &Act{K: "us", S: g.str()}
 	case 18:
+		if g.noDump {
+			return &Act{K: "us", S: g.str()}
+		}
 		return &Act{K: "dump"}
 	default:
 		if r.coin(1, 3) {
@@ -316,7 +361,11 @@ func (g *vgen) literal() string {
 	if !g.hostile {
 		return r.pick([]string{"", "a", " ", "x=", "\n", ":", "é", "%%"})
 	}
-	return r.pick(litPieces)
+	l := r.pick(litPieces)
+	if g.validUtf8 && !utf8.ValidString(l) {
+		return "›"
+	}
+	return l
 }
 
 func verbsFor(v *Val) string {
@@ -537,7 +586,7 @@ func buildOracle(c *pcase) string {
 	}
 	fa := func(a *Act) {
 		switch a.K {
-		case "ret", "write", "ss", "us", "sbs", "ubs":
+		case "ret", "write", "wstr", "ss", "us", "sbs", "ubs":
 			strs[a.S] = true
 		case "printf":
 			formats = append(formats, a.S)
@@ -675,6 +724,8 @@ func applyBuilderAct(sb *redact.StringBuilder, a *Act) {
 	switch a.K {
 	case "write":
 		_, _ = sb.Write([]byte(a.S))
+	case "wstr":
+		_, _ = sb.WriteString(a.S)
 	case "ss":
 		sb.SafeString(redact.SafeString(a.S))
 	case "si":
@@ -725,7 +776,7 @@ func runPCase(c *pcase) string {
 	func() {
 		defer func() {
 			if r := recover(); r != nil {
-				obs = "(panic)"
+				obs = sx("panic", b01(panicMayPropagate(c)))
 			}
 		}()
 		switch c.entry {
@@ -816,4 +867,83 @@ func genPrinterRandom(w *bufio.Writer, rng *prng, n int, depth int, hostile bool
 		}
 		fmt.Fprintln(w, runPCase(c))
 	}
+}
+
+
+// A panic may leave a print call only when it is raised while a panic payload is being
+// printed (nested panic, as in fmt), or by the Sprintfn callback itself (the caller's own
+// function, not a formatting method).
+func valCanPanic(v *Val) bool {
+	can := false
+	var walkV func(v *Val)
+	var walkA func(a *Act)
+	walkA = func(a *Act) {
+		if a.K == "panic" {
+			can = true
+		}
+		for _, x := range a.Args {
+			walkV(x)
+		}
+	}
+	walkV = func(v *Val) {
+		if v == nil {
+			return
+		}
+		for _, a := range v.Script {
+			walkA(a)
+		}
+		for _, e := range v.Elems {
+			walkV(e)
+		}
+		for _, e := range v.Keys {
+			walkV(e)
+		}
+	}
+	walkV(v)
+	return can
+}
+
+func panicMayPropagate(c *pcase) bool {
+	may := false
+	var walkV func(v *Val)
+	var walkA func(a *Act)
+	walkA = func(a *Act) {
+		if a.K == "panic" {
+			for _, x := range a.Args {
+				if valCanPanic(x) {
+					may = true
+				}
+			}
+		}
+		for _, x := range a.Args {
+			walkV(x)
+		}
+	}
+	walkV = func(v *Val) {
+		if v == nil {
+			return
+		}
+		for _, a := range v.Script {
+			walkA(a)
+		}
+		for _, e := range v.Elems {
+			walkV(e)
+		}
+		for _, e := range v.Keys {
+			walkV(e)
+		}
+	}
+	for _, v := range c.args {
+		walkV(v)
+	}
+	for _, a := range c.hook {
+		walkA(a)
+	}
+	for _, a := range c.acts {
+		walkA(a)
+		if a.K == "panic" && c.entry == "sprintfn" {
+			may = true
+		}
+	}
+	return may
 }
